@@ -190,7 +190,7 @@ impl Var {
     }
 
     pub fn store(&mut self, var_name: &Rc<str>, value: Val) -> Result<()> {
-        if self.vars.len() > u16::max_value() as usize {
+        if self.vars.len() > u16::max_value() as usize && !self.vars.contains_key(var_name) {
             return Err(error!(OutOfMemory));
         }
         if var_name.ends_with('!') {
